@@ -61,11 +61,15 @@ def main():
             # the item lives in the library (it must compile there), the probe in the dependent crate
             lib.add_case("x" + c["case"], render({**i, "loc": "none"}))
             ext.add_case(c["case"], f"#[allow(unused_imports)] use ::c13lib::cases::cx{c['case']}::d::{tname(i)} as _Probe;\n")
+        elif i["loc"] == "cousin":
+            # the item in one case module, the probe in another module of the same crate
+            lib.add_case("y" + c["case"], render({**i, "loc": "none"}))
+            lib.add_case("u" + c["case"], f"#[allow(unused_imports)] use crate::cases::cy{c['case']}::d::{tname(i)} as _Probe;\n")
         else:
             lib.add_case(c["case"], render(i))
     dump = os.path.join(chk.work, "dump")
     dropped_lib, first_dump, it1 = lib.build(mode="check", dump=dump)
-    bad_items = [k for k in dropped_lib if k.startswith("x")]
+    bad_items = [k for k in dropped_lib if k.startswith("x") or k.startswith("y")]
     if bad_items:
         raise vf.ToolError(f"C13: library items of other-crate probes do not compile: {bad_items[:3]} {dropped_lib[bad_items[0]][:1]}")
     dropped_ext, _, it2 = ext.build(mode="check", dump=None)
@@ -74,9 +78,9 @@ def main():
     for c in cases:
         cid = c["case"]
         i = c["in"]
-        d = dropped_ext.get(cid) if i["loc"] == "other-crate" else dropped_lib.get(cid)
+        d = dropped_ext.get(cid) if i["loc"] == "other-crate" else dropped_lib.get("u" + cid) if i["loc"] == "cousin" else dropped_lib.get(cid)
         codes = sorted({x["code"] for x in d}) if d else []
-        recs = by_case.get(("x" + cid) if i["loc"] == "other-crate" else cid) or []
+        recs = by_case.get(("x" + cid) if i["loc"] == "other-crate" else ("y" + cid) if i["loc"] == "cousin" else cid) or []
         vistext = None
         for r in sorted(recs, key=lambda r: (r["pid"], r["seq"]))[:1]:
             for it in r["items"]:
@@ -102,7 +106,7 @@ def main():
     chk.cov["distinct_nontrivial"] = sum(1 for e in events if not e["obs"]["compiled"])
     chk.cov["positive_probes"] = sum(1 for e in events if e["obs"]["compiled"])
     chk.cov["rule"] = ("requested visibility {none, pub, pub(crate), and for fn inputs pub(super), pub(in crate::cases)} x item visibility (for trait inputs: the visibility keyword written before the target trait's name) {none, pub, "
-                       "pub(crate)} x {fn, mod, trait (delegation-target trait)} x probe location {same module, child, sibling, parent, other crate}; module inputs are probed through both names, the "
+                       "pub(crate)} x {fn, mod, trait (delegation-target trait)} x probe location {same module, child, sibling, parent, cousin (another module of the crate, outside the parent), other crate}; module inputs are probed through both names, the "
                        "re-export D::T and the trait itself D::m::T (from the locations that can name m); "
                        "all points replayed; non-trivial = negative probe (naming the trait must NOT compile)")
     chk.cov["exhaustive"] = True
